@@ -33,6 +33,18 @@ fn substitutes(r: &Rich, ent: &Entry, idx: usize, kind: &SlotKind, pool: usize) 
                 }
             }
             out.push(("a user token account of the same mint", w.user_token_existing(r.attacker, &mint)));
+            // right mint AND right authority (the pool), but not the pool's vault: a stray account anybody can create, and the pool's
+            // reward vault when it pays a reward in this token
+            for (sp, sm, t) in &r.stray {
+                if *sp == pool && *sm == mint {
+                    out.push(("a token account of the same mint owned by the pool that is not its vault", *t));
+                }
+            }
+            for rw in &pl.rewards {
+                if rw.mint.key == mint {
+                    out.push(("the pool's reward vault holding the same token", rw.vault));
+                }
+            }
         }
         SlotKind::OwnerTokenA | SlotKind::OwnerTokenB => {
             let other_mint = if *kind == SlotKind::OwnerTokenA { pl.mint_b.key } else { pl.mint_a.key };
@@ -90,6 +102,20 @@ fn substitutes(r: &Rich, ent: &Entry, idx: usize, kind: &SlotKind, pool: usize) 
             for o in &others {
                 for rw in &w.pools[*o].rewards {
                     out.push(("another pool's reward vault", rw.vault));
+                }
+            }
+            // right mint and right authority, not the reward's vault
+            if let Some(cur_rw) = pl.rewards.iter().find(|rw| rw.vault == cur) {
+                for (sp, sm, t) in &r.stray {
+                    if *sp == pool && *sm == cur_rw.mint.key {
+                        out.push(("a token account of the reward mint owned by the pool that is not the reward vault", *t));
+                    }
+                }
+                if cur_rw.mint.key == pl.mint_a.key {
+                    out.push(("the pool's token vault of the same mint", pl.vault_a));
+                }
+                if cur_rw.mint.key == pl.mint_b.key {
+                    out.push(("the pool's token vault of the same mint", pl.vault_b));
                 }
             }
         }
@@ -241,7 +267,7 @@ pub fn def() -> CheckDef {
         rule: "the rich world of C04 (three pools over overlapping mints and identical tick-array start indexes, second config, positions in every pool, two rewards per \
                pool); for every fund-moving instruction (swap v1/v2, adaptive swap, two-hop v1/v2, increase/decrease v1/v2, by-token-amounts, reposition, collect fees / \
                reward / protocol fees v1/v2, set-reward-emissions) a slot table tags each account; baseline must succeed, then every slot is substituted with \
-               well-formed accounts of the same type belonging to another pool / mint / position / reward index / program: every substituted call must fail; for the v2 swaps every initialized tick array of another pool is additionally offered as a *supplemental* tick array \
+               well-formed accounts of the same type belonging to another pool / mint / position / reward index / program (for vault slots also token accounts of the right mint whose authority IS the pool but which are not its vault: stray accounts, and the reward vault of a pool that pays a reward in its own token): every substituted call must fail; for the v2 swaps every initialized tick array of another pool is additionally offered as a *supplemental* tick array \
                (any position in the key order relative to the pool's own arrays) and must be refused.  \
                The table is enumerated completely on every world; distinct non-trivial = (instruction, slot, substitute kind, world).",
         assumptions: vec!["nsvm runtime as in DESIGN.md §5", "slots where substitution is legitimate (funder, receiver, any destination of the right mint) are not in the table"],
